@@ -10,19 +10,24 @@ ASSUME = ['schedules are explored at lock-operation granularity (a thread switch
           'events are emitted by harness-side wrappers at method exit; between the state change and the wrapper no lock is '
           'acquired, so the event is atomic with the change under this scheduler',
           'TLC results are exhaustive only within the stated constants; schedules are seeded random walks']
-CONSTS = {'Conn': '{"c1", "c2", "c3"}', 'Oid': '{"x", "y"}', 'MaxCommits': 999, 'MaxCloses': 999, 'MutIgnoreILtid': 'FALSE'}
+CONSTS = {'UndoAgents': '{"u"}', 'Conn': '{"c1", "c2", "c3", "u"}', 'Oid': '{"x", "y"}', 'MaxCommits': 999, 'MaxCloses': 999, 'MutIgnoreILtid': 'FALSE'}
 
 
 def _mc(ctx, quick):
     cfg = os.path.join(ctx.scratch, 'zmvcc.cfg')
     tlc.write_cfg(cfg, constants={'Conn': '{"c1", "c2"}', 'Oid': '{"x", "y"}', 'MaxCommits': 3 if quick else 4,
-                                  'MaxCloses': 2, 'MutIgnoreILtid': 'FALSE'},
+                                  'MaxCloses': 2, 'MutIgnoreILtid': 'FALSE', 'UndoAgents': '{}'},
                   invariants=['CacheCoherent', 'Fresh', 'NotFromTheFuture', 'VotedOnCurrent', 'LockDiscipline'])
     ctx.model_check('ZMvcc', cfg, name='ZMvcc-2conn', timeout=1800)
+    cfgu = os.path.join(ctx.scratch, 'zmvcc-undo.cfg')
+    tlc.write_cfg(cfgu, constants={'Conn': '{"c1", "c2", "u"}', 'Oid': '{"x", "y"}', 'MaxCommits': 2 if quick else 3,
+                                   'MaxCloses': 0 if quick else 1, 'MutIgnoreILtid': 'FALSE', 'UndoAgents': '{"u"}'},
+                  invariants=['CacheCoherent', 'Fresh', 'NotFromTheFuture', 'VotedOnCurrent', 'LockDiscipline'])
+    ctx.model_check('ZMvcc', cfgu, name='ZMvcc-with-undo', timeout=1800)
     # vacuity / sensitivity: the specification rejects the known-bad design (snapshot := polled tid only)
     cfg2 = os.path.join(ctx.scratch, 'zmvcc-mut.cfg')
     tlc.write_cfg(cfg2, constants={'Conn': '{"c1", "c2"}', 'Oid': '{"x", "y"}', 'MaxCommits': 3, 'MaxCloses': 1,
-                                   'MutIgnoreILtid': 'TRUE'}, invariants=['CacheCoherent'])
+                                   'MutIgnoreILtid': 'TRUE', 'UndoAgents': '{}'}, invariants=['CacheCoherent'])
     ctx.model_check('ZMvcc', cfg2, name='ZMvcc-mutant', expect_violation='CacheCoherent', timeout=600)
 
 
@@ -72,7 +77,8 @@ def run(ctx):
         'traces_validated_against_impl': len(traces),
         'trace_events': sum(len(t) for t in traces),
         'rule': 'seeded multi-connection programs (2-3 threads; per transaction: read both / read one / write x / write y / '
-                'write both then commit or abort; close and reopen through the pool) run on the real DB, Connection, MVCC '
+                'write both then commit or abort; close and reopen through the pool; DB.undoMultiple of the last one or two '
+                'transactions as a transaction of its own) run on the real DB, Connection, MVCC '
                 'adapter over FileStorage and MappingStorage with one real thread per connection under the cooperative '
                 'scheduler (seeded random walk, three stickiness levels); one event per ZMvcc action (Open, Close, PollRead, '
                 'PollApply with snapshot and cache projection, Read with serial, Write, BeginVote outcome, FinishStart, '
